@@ -83,7 +83,7 @@ def run(ck, ctx):
                 n_val += 1
                 if changes_case:
                     atoms = guard_atoms(f.node, node)
-                    ok = ("t.type != 'ID'", True) in atoms
+                    ok = _excludes_id(atoms)
                     ck.ob("T-CASE-VALUE", f"{f.qual}: {ast.unparse(node)[:60]}", ok,
                           f"a token value may be re-cased only when the token is not an identifier (guards: {atoms})", f.loc(node))
                 else:
@@ -156,6 +156,25 @@ def run(ck, ctx):
                        "and layout variants; layout invariance for `;`-terminated statements follows by induction over the lines",
                        "lines starting with a statement-level word inside a statement are excluded by the property itself",
                        "blanks inside string literals and the spacing the pre-processor applies inside literals are C07's concern"]
+
+
+def _excludes_id(atoms):
+    """the guards of the statement rule out t.type == 'ID', however that is written"""
+    for text, truth in atoms:
+        try:
+            e = ast.parse(text, mode="eval").body
+        except SyntaxError:
+            continue
+        if not (isinstance(e, ast.Compare) and len(e.ops) == 1 and ast.unparse(e.left) == "t.type"):
+            continue
+        op, c = e.ops[0], e.comparators[0]
+        has_id = (isinstance(c, ast.Constant) and c.value == "ID") or (
+            isinstance(c, (ast.Tuple, ast.List, ast.Set)) and any(isinstance(x, ast.Constant) and x.value == "ID" for x in c.elts))
+        if not has_id:
+            continue
+        if (isinstance(op, (ast.NotEq, ast.NotIn)) and truth) or (isinstance(op, (ast.Eq, ast.In)) and not truth):
+            return True
+    return False
 
 
 def _vals(r, wc):
